@@ -39,12 +39,15 @@ type CrudOp struct {
 // C01Case is a C01 run.
 type C01Case struct {
 	Common
-	Variant string     `json:"variant"`
+	Variant string `json:"variant"`
 	// Remote: the clients reach the store through the gRPC client adapter, the simulated transport and the server
 	// (concurrent handlers over one state)
 	Remote bool `json:"remote,omitempty"`
-	Hist    HistCfg    `json:"hist"`
-	Clients [][]CrudOp `json:"clients"`
+	// StoreFaults: 1-based indices of backing-store writes that are rejected (variants with a backing store): the
+	// failed call must leave the state untouched
+	StoreFaults []int      `json:"store_faults,omitempty"`
+	Hist        HistCfg    `json:"hist"`
+	Clients     [][]CrudOp `json:"clients"`
 }
 
 type c01 struct{}
@@ -84,6 +87,7 @@ func genCrudOps(r *simrt.RNG, nss []string, client, n int, uniq *int) []CrudOp {
 		case 0:
 			op.Kind = "create"
 			op.Owner = owners[r.Pick([]int{3, 2, 1})]
+			op.Fresh = r.Bool(0.3) // create from a held object (obtained earlier: carries a version, phase, finalizers, labels)
 		case 1:
 			op.Kind = "update"
 			op.Owner = owners[r.Pick([]int{3, 2, 1})]
@@ -127,6 +131,11 @@ func (c01) Gen(seed uint64, tier string) Case {
 	c.Variant = storeVariants[r.Intn(len(storeVariants))]
 	nss := variantNamespaces(c.Variant)
 	c.Remote = remoteAvailable && r.Bool(0.2)
+	if strings.Contains(c.Variant, "+tap") && r.Bool(0.3) {
+		for i := 0; i < 1+r.Intn(3); i++ {
+			c.StoreFaults = append(c.StoreFaults, 1+r.Intn(10))
+		}
+	}
 	nclients := 2 + r.Intn(3)
 	maxOps := 6
 	if tier == "thorough" {
@@ -175,6 +184,11 @@ func (c01) Shrink(cs Case) []Case {
 	if c.Remote {
 		n := cloneJSON(c)
 		n.Remote = false
+		out = append(out, n)
+	}
+	for i := range c.StoreFaults {
+		n := cloneJSON(c)
+		n.StoreFaults = dropAt(n.StoreFaults, i)
 		out = append(out, n)
 	}
 	if c.Variant != "inmem" {
@@ -291,6 +305,9 @@ func makeCrudModel(init modelState) porcupine.Model {
 				}
 				return strings.Join(parts, "|") == o.List, s
 			case "create":
+				if o.Err.Injected {
+					return true, s // rejected by the backing store: no effect (later reads check that)
+				}
 				k := idIndex(i.Op.ID)
 				e := s[k]
 				if e.Exists {
@@ -312,6 +329,9 @@ func makeCrudModel(init modelState) porcupine.Model {
 				s[k] = n
 				return true, s
 			case "update":
+				if o.Err.Injected {
+					return true, s
+				}
 				k := idIndex(i.Op.ID)
 				e := s[k]
 				exists := e.Exists
@@ -357,6 +377,9 @@ func makeCrudModel(init modelState) porcupine.Model {
 				}
 				return false, s
 			case "destroy":
+				if o.Err.Injected {
+					return true, s
+				}
 				k := idIndex(i.Op.ID)
 				e := s[k]
 				exists := e.Exists
@@ -461,6 +484,9 @@ func (cl *crudClient) record(in crudIn, call int64, o crudOut) {
 }
 
 func (cl *crudClient) classify(err error, op CrudOp) ErrClass {
+	if err != nil && strings.Contains(err.Error(), errStoreFault.Error()) {
+		return ErrClass{Injected: true}
+	}
 	c, problem := classify(err, op.NS, op.Type)
 	if problem != "" {
 		sig := "error-predicates"
@@ -496,6 +522,13 @@ func (cl *crudClient) do(ctx context.Context, op CrudOp) {
 		cl.record(crudIn{Op: op, Part: part}, call, o)
 	case "create":
 		r := NewRes(op.NS, op.Type, op.ID, op.Val)
+		// (not through the remote leg, where the creation time is not written back into the caller's object, and only if
+		// the held object's owner does not contradict the requested one: Metadata.SetOwner refuses to change an owner)
+		if h := cl.held[key]; op.Fresh && !cl.remote && h != nil && !resource.IsTombstone(h) && (h.Metadata().Owner() == "" || h.Metadata().Owner() == op.Owner) {
+			r = h.DeepCopy()
+			SpecOf(r).Val = op.Val
+			cl.out.probe("create-from-held")
+		}
 		in := crudIn{Op: op, Part: part, New: SnapOf(r)}
 		*cl.ev++
 		call := *cl.ev
@@ -601,6 +634,19 @@ func (c01) Run(t *testing.T, cs Case, trace bool) *Outcome {
 		w := NewStoreWorld(c.Variant, c.Hist)
 		ctx, cancel := context.WithCancel(context.Background())
 		defer cancel()
+		nwrites := 0
+		if len(c.StoreFaults) > 0 {
+			w.failWrite = func(kind, typ, id string) error {
+				nwrites++
+				for _, f := range c.StoreFaults {
+					if f == nwrites {
+						out.fault("backing-store-write-rejected:" + kind)
+						return errStoreFault
+					}
+				}
+				return nil
+			}
+		}
 		var core state.CoreState = w.Core
 		var tr *simTransport
 		if c.Remote {
